@@ -190,7 +190,12 @@ func VPH_C01_write_arith() {
 		vpAssert(status == NFS_OK, "write-in-range-ok")
 	}
 	if status != NFS_OK {
-		vpAssert(env.fs.count("WriteAt") == 0, "failed-write-stores-nothing")
+		// nothing stored: either the backend was never asked, or it refused the call itself (an end
+		// offset beyond the largest file offset is EFBIG from pwrite) and the file is as it was
+		vpAssert(vpAnd(env.fs.stored == 0, n.size == S), "failed-write-stores-nothing")
+		if env.fs.count("WriteAt") != 0 {
+			vpReach("backend-refused-write")
+		}
 		return
 	}
 	vpReach("write-ok")
